@@ -535,6 +535,142 @@ pub fn specs(tier: Tier) -> Vec<GenSpec> {
     }
 }
 
+
+fn respell(v: &Value, how: usize) -> Value {
+    match v {
+        Value::Object(m) => Value::Object(
+            m.iter()
+                .map(|(k, x)| {
+                    if k == "type" {
+                        let t = x.as_str().unwrap_or("");
+                        let r: String = match how {
+                            0 => t.to_string(),
+                            1 => t.to_uppercase(),
+                            2 => t.chars().enumerate().map(|(i, c)| if i == 0 { c.to_ascii_uppercase() } else { c }).collect(),
+                            _ => t.chars().enumerate().map(|(i, c)| if i % 2 == 1 { c.to_ascii_uppercase() } else { c }).collect(),
+                        };
+                        (k.clone(), Value::String(r))
+                    } else {
+                        (k.clone(), respell(x, how))
+                    }
+                })
+                .collect(),
+        ),
+        Value::Array(a) => Value::Array(a.iter().map(|x| respell(x, how)).collect()),
+        _ => v.clone(),
+    }
+}
+
+/// reference decision of a limit on (tree size, iteration): which member limits fire
+fn ref_fires(term: &Term, size: usize, iteration: u64, out: &mut Vec<String>) {
+    match term {
+        Term::Unlimited => {}
+        Term::Iterations(l) => {
+            if iteration + 1 > *l {
+                out.push(format!("exceeded iteration limit of {}", l));
+            }
+        }
+        Term::Size(l) => {
+            if size > *l {
+                out.push(format!("exceeded solution size limit of {}", l));
+            }
+        }
+        Term::RuntimeMs { limit_ms, frequency } => {
+            // the probe starts the clock one minute in the past: a zero budget is exhausted, an hour is not
+            if (*frequency == 0 || iteration % frequency == 0) && *limit_ms < 60_000 {
+                out.push("exceeded runtime limit of".to_string());
+            }
+        }
+        Term::Combined(v) => v.iter().for_each(|t| ref_fires(t, size, iteration, out)),
+    }
+}
+
+const SPELLINGS: [&str; 4] = ["lower", "upper", "capitalised", "alternating"];
+
+fn spelling_terms() -> Vec<Term> {
+    let mut singles = vec![];
+    for l in [0u64, 1, 2, 5] {
+        singles.push(Term::Iterations(l));
+        singles.push(Term::Size(l as usize));
+    }
+    for f in [0u64, 1, 3] {
+        singles.push(Term::RuntimeMs { limit_ms: 0, frequency: f });
+        singles.push(Term::RuntimeMs { limit_ms: 3_600_000, frequency: f });
+    }
+    let mut out = singles.clone();
+    for a in &singles {
+        for b in &singles {
+            out.push(Term::Combined(vec![a.clone(), b.clone()]));
+        }
+    }
+    for a in [Term::Iterations(2), Term::Size(2)] {
+        for b in [Term::Iterations(4), Term::Size(1), Term::RuntimeMs { limit_ms: 0, frequency: 3 }] {
+            out.push(Term::Combined(vec![Term::Combined(vec![a.clone()]), b.clone()]));
+            out.push(Term::Combined(vec![b.clone(), Term::Combined(vec![a.clone(), b.clone()])]));
+        }
+    }
+    out.push(Term::Combined(vec![]));
+    out
+}
+
+/// every limit written as a configuration section, in each spelling, must decide every (size, iteration) probe like the limit it names
+fn builder_spellings(st: &mut Stats, only: Option<&Value>) {
+    use routee_compass::app::compass::config::termination_model_builder::TerminationModelBuilder;
+    let start = std::time::Instant::now() - std::time::Duration::from_secs(60);
+    for term in spelling_terms() {
+        let Some(cfg) = term.config_json() else { continue };
+        for (how, name) in SPELLINGS.iter().enumerate() {
+            let section = respell(&cfg, how);
+            if let Some(o) = only {
+                if o.get("section") != Some(&section) {
+                    continue;
+                }
+            }
+            st.evaluations += 1;
+            let comp = format!("termination_builder.{}", name);
+            let case = || json!({"kind": "termination_builder", "section": section, "limit": term});
+            let built = match std::panic::catch_unwind(|| TerminationModelBuilder::build(&section, None)) {
+                Ok(Ok(t)) => t,
+                Ok(Err(e)) => {
+                    st.violation(&comp, "every_spelling_of_a_limit_kind_is_accepted", 0, || format!("{} is rejected: {}", section, e), case);
+                    continue;
+                }
+                Err(_) => {
+                    st.violation(&comp, "no_panic", 0, || format!("{} makes the builder panic", section), case);
+                    continue;
+                }
+            };
+            let mut bad: Option<String> = None;
+            'probe: for size in 0usize..=7 {
+                for iteration in 0u64..=7 {
+                    let mut want = vec![];
+                    ref_fires(&term, size, iteration, &mut want);
+                    let got = built.test(&start, size, iteration);
+                    let ok = match (&got, want.is_empty()) {
+                        (Ok(()), true) => true,
+                        (Err(e), false) => {
+                            let text = e.to_string();
+                            want.iter().all(|w| text.contains(w.as_str()))
+                                && (text.contains("iteration limit") == want.iter().any(|w| w.contains("iteration limit")))
+                                && (text.contains("solution size limit") == want.iter().any(|w| w.contains("solution size limit")))
+                                && (text.contains("runtime limit") == want.iter().any(|w| w.contains("runtime limit")))
+                        }
+                        _ => false,
+                    };
+                    if !ok {
+                        bad = Some(format!("{} at tree size {} and iteration {}: the limit it names gives {:?}, the built model answers {:?}", section, size, iteration, want, got.map_err(|e| e.to_string())));
+                        break 'probe;
+                    }
+                }
+            }
+            match bad {
+                Some(d) => st.violation(&comp, "built_model_decides_like_the_configured_limit", 0, || d, case),
+                None => st.pass("termination_builder_spelling"),
+            }
+        }
+    }
+}
+
 pub fn run(tier: Tier) -> i32 {
     let info = RunInfo::new("C10", tier);
     let specs = specs(tier);
@@ -557,6 +693,8 @@ pub fn run(tier: Tier) -> i32 {
             }
         }
     }
+    // the configuration route: every limit kind, alone / combined / nested, with its type name in every letter case the builder accepts
+    builder_spellings(&mut st, None);
     // Yen's sub-searches under limits, in sandbox workers
     {
         use crate::engine::sandbox::{run_cases, Fate, SandboxCfg};
@@ -605,6 +743,15 @@ pub fn run(tier: Tier) -> i32 {
 }
 
 pub fn replay(case: &Value) -> i32 {
+    if case["kind"] == "termination_builder" {
+        let mut st = Stats::new();
+        builder_spellings(&mut st, Some(case));
+        println!("{} sections rebuilt", st.evaluations);
+        for (k, g) in st.violations.iter() {
+            println!("REPLAY-VIOLATION {} {}", k, g.detail);
+        }
+        return if st.violations.is_empty() { 0 } else { 1 };
+    }
     let w: World = match serde_json::from_value(case["world"].clone()) {
         Ok(w) => w,
         Err(e) => {
